@@ -22,7 +22,16 @@ ASSUMPTIONS = ["a finished thread is waited for until it has left sys._current_f
                "ident reuse into a test's snapshot is KNOWN-FINDING D12 (the guard of C19_exact)"]
 TRUSTED = ["OS thread identifiers and sys._current_frames() (idents are logged by the world and given to the model)"]
 
-RUN = "import sys\nfrom zope.testrunner import run\nrun()\n"
+RUN = """import contextlib, io, os, sys
+from zope.testrunner import run, run_internal
+pre = os.environ.get("ZTR_PRERUN_DIR")
+if pre:
+    # an earlier run in the same process (an embedding program, a test of the runner itself) that ignored every
+    # thread name: nothing of it may survive into the run observed
+    with contextlib.redirect_stdout(io.StringIO()):
+        run_internal([], [sys.argv[0], "--path", pre, "--ignore-new-thread", ".", "--ignore-new-thread", "ign|w|Dummy"])
+run()
+"""
 
 
 def gen_script(rng):
@@ -86,7 +95,14 @@ def gen_script(rng):
                 uid += 1
     ignore = rng.choice([["ign"], ["ign"], ["(?i)ign", "W\\d"], ["(w)orker-9", "(\\w+)=\\1"], ["ign", "w\\d+$"], ["IGN", "ign"],
                          ["idle", "Dummy-\\d{6,}$"], ["ign", "Dummy-\\d{6,}$"]])
-    return dict({"tests": tests, "ignore": ignore}, **({"hooks": hooks} if hooks else {}))
+    extra = {}
+    if rng.random() < 0.3:
+        extra["buffer"] = True          # the report of left-over threads is the runner's output, never captured
+    if rng.random() < 0.25:
+        extra["prerun"] = True          # an earlier run in the same process with other ignore patterns
+    if rng.random() < 0.3:
+        extra["verbose"] = rng.choice(["-vv", "-vvv", "-p"])
+    return dict({"tests": tests, "ignore": ignore}, **dict(extra, **({"hooks": hooks} if hooks else {})))
 
 
 def run_real(ctx, script, idx):
@@ -101,6 +117,13 @@ def run_real(ctx, script, idx):
     ign_args = []
     for pat in script.get("ignore", ["ign"]):
         ign_args += ["--ignore-new-thread", pat]
+    if script.get("buffer"):
+        ign_args.append("--buffer")
+    if script.get("verbose"):
+        ign_args.append(script["verbose"])
+    if script.get("prerun"):
+        os.makedirs(os.path.join(d, "empty"))
+        env["ZTR_PRERUN_DIR"] = os.path.join(d, "empty")
     p = subprocess.run([common.PY, os.path.join(d, "ztr_run.py"), "--path", d, "-v"] + ign_args,
                        cwd=d, env=env, stdout=subprocess.PIPE, stderr=subprocess.PIPE, timeout=120)
     events = [json.loads(l) for l in open(trace)] if os.path.exists(trace) else []
@@ -157,6 +180,18 @@ def directed_scripts():
                           "2": {"before": [["start", 11, "threading", "srv-11"]]},
                           "3": {"before": [["start", 12, "_thread", "x"]]}},
                 "ignore": ["ign"]})
+    # --buffer: tests that leave a thread behind and skip themselves are still being captured when they end; the report
+    # of their threads is the runner's output all the same (also with progress/verbose output around it)
+    for verbose in (None, "-vv"):
+        out.append(dict({"tests": [{"id": 0, "actions": [["start", 0, "threading", "w0"], ["skip"]]},
+                                   {"id": 1, "actions": [["start", 1, "_thread", "x"], ["skip"]]},
+                                   {"id": 2, "actions": [["start", 2, "threading", "w2"]]},
+                                   {"id": 3, "actions": []}],
+                         "ignore": ["ign"], "buffer": True}, **({"verbose": verbose} if verbose else {})))
+    # an earlier run in the same process ignored every thread name: this one ignores only what it was told to
+    out.append({"tests": [{"id": 0, "actions": [["start", 0, "threading", "w0"], ["start", 1, "threading", "ign-1"]]},
+                          {"id": 1, "actions": [["start", 2, "_thread", "x"]]}],
+                "ignore": ["ign"], "prerun": True})
     return out
 
 
